@@ -198,6 +198,10 @@ func (s *Spec) GoStageA(v GoVariant) map[string]string {
 		}
 		fmt.Fprintf(&body, "func %s %s(%s) %s { return %s }\n\n", recv, m.Name, strings.Join(params, ", "), ret, zero)
 	}
+	if v.Defect == "aliases" {
+		// legal: the parser struct, the token type and a node type are also known under alias names
+		body.WriteString("type Parser = parserImpl\n\ntype Tok = Token\n\ntype NodePtr = *Node\n\nvar _ Parser\nvar _ Tok\nvar _ NodePtr\n\n")
+	}
 	if v.Defect == "extra-methods" {
 		fmt.Fprintf(&body, "func %s helper(a Token) *Node { return nil }\n\nfunc %s On_notAnAction(a Token) (int, error) { return 0, nil }\n\nfunc (n *Node) on_top(a Token) *Node { return nil }\n\n", recv, recv)
 	}
